@@ -672,3 +672,75 @@ def tbl11_json_renderers(ctx):
                   'branch for signature(s) %s must handle %s; non-panicking arms: %s'
                   % (consts, sorted(need), sorted(handled)), '%s:%d' % (f, iff['l']))
     ctx.require(n_br >= 3, 'TBL-11: fewer than 3 signature branches with a value match')
+
+
+# ---------------------------------------------------------------------------- TBL-12
+def _int_of(n):
+    if n.get('k') == 'lit' and 'int' in n:
+        return int(n['int'], 0) if not n['int'].isdigit() else int(n['int'])
+    return None
+
+
+def tbl12_xor_stream_fields(ctx):
+    ctx.rule('TBL-12', 'XOR float stream: encoder, verbose encoder and decoder agree on field widths, '
+                       'on the leading-zero cap implied by its field width and on the -1/+1 bias of '
+                       'the significant-bits field', floor=6)
+    ast = ctx.ast
+    f = 'locustdb-compression-utils/src/xor_float/double.rs'
+
+    def writes(fn):
+        out = []
+        for m in find(fn, 'mcall'):
+            if m['method'] == 'write_int' and len(m['args']) == 2:
+                out.append((m['args'][0], _int_of(m['args'][1]), m['l']))
+        out.sort(key=lambda x: x[2])
+        return out
+
+    def reads(fn):
+        out = []
+        for m in find(fn, 'mcall'):
+            if m['method'] == 'read_int' and len(m['args']) == 1:
+                out.append((_int_of(m['args'][0]), m['l'], m))
+        out.sort(key=lambda x: x[1])
+        return out
+    enc = ast.fn('encode', f)
+    venc = ast.fn('verbose_encode', f)
+    dec = ast.fn('decode', f)
+    we, wv, rd = writes(enc), writes(venc), reads(dec)
+    ctx.require(len(we) >= 6 and len(rd) >= 5, 'TBL-12: write_int/read_int calls not found')
+    lit_w = lambda ws: [w for (_a, w, _l) in ws if w is not None]
+    ctx.check('TBL-12', 'encode-vs-verbose_encode|field-widths', lit_w(we) == lit_w(wv),
+              'encode writes literal widths %s, verbose_encode %s' % (lit_w(we), lit_w(wv)), f)
+    # header: two 64-bit words on both sides
+    ctx.check('TBL-12', 'header|widths', lit_w(we)[:2] == [64, 64] and [r[0] for r in rd][:2] == [64, 64],
+              'length and first value are 64-bit fields on both sides', f)
+    # control prefix: encoder 1 bit (zero) or 2 bits; decoder reads 1 bit then 1 bit
+    enc_small = sorted(w for w in lit_w(we)[2:] if w <= 2)
+    dec_small = sorted(r[0] for r in rd[2:] if r[0] is not None and r[0] <= 2)
+    ctx.check('TBL-12', 'control-bits', enc_small == [1, 2, 2] and dec_small == [1, 1],
+              'encoder control fields %s, decoder control reads %s' % (enc_small, dec_small), f)
+    enc_big = sorted(w for w in lit_w(we)[2:] if w > 2)
+    dec_big = sorted(r[0] for r in rd[2:] if r[0] is not None and r[0] > 2)
+    ctx.check('TBL-12', 'window-fields|widths', enc_big == dec_big and len(enc_big) == 2,
+              'window description fields: encoder %s, decoder %s' % (enc_big, dec_big), f)
+    # leading-zero cap: the cap is the largest value that fits the (smaller) window field
+    caps = [_int_of(m['args'][0]) for m in find(enc, 'mcall') if m['method'] == 'min' and m['args']
+            and any(x.get('method') == 'leading_zeros' for x in walk(m['recv']))]
+    lz_w = min(enc_big) if enc_big else None
+    ctx.check('TBL-12', 'leading-zero-cap', lz_w is not None and caps == [(1 << lz_w) - 1],
+              'leading zeros are capped at %s and stored in %s bits (cap must be 2^bits - 1)' % (caps, lz_w), f)
+    # significant bits bias
+    sb_minus = any(a.get('k') == 'binary' and a['op'] == '-' and _int_of(a['rhs']) == 1 and w == max(enc_big or [0])
+                   for (a, w, l) in we)
+    sb_plus = False
+    for n in find(dec, 'binary'):
+        if n['op'] == '+' and _int_of(n['rhs']) == 1 and any(x.get('method') == 'read_int' for x in walk(n['lhs'])):
+            sb_plus = True
+    ctx.check('TBL-12', 'significant-bits-bias', sb_minus and sb_plus,
+              'encoder stores significant_bits - 1, decoder adds 1 (encoder: %s, decoder: %s)' % (sb_minus, sb_plus), f)
+    # variable-width payload: encoder writes `significant_bits` bits, decoder reads last_significant_bits
+    var_w = [a for (a, w, l) in we if w is None]
+    var_r = [r for r in rd if r[0] is None]
+    ctx.check('TBL-12', 'payload|variable-width', len(var_w) == 2 and len(var_r) == 1,
+              'payload written with the window width (%d sites), read with the window width (%d sites)'
+              % (len(var_w), len(var_r)), f)
